@@ -48,14 +48,27 @@ theorem lexIdentRest_sat {n : Int} {l0 l : Lexer} {ty : ItemType} (hn : l.len = 
       intro l2 hl2 hp2 hs2 hw2
       fin
 
-theorem lexIdent_ok {n : Int} {l : Lexer} (hg : Good n l) :
+theorem lexIdent_ok {n : Int} {l : Lexer} (hg : Good n l) (hx : Extra .ident l) :
     Sat (lexIdent l) (Post n .ident l) := by
   obtain ⟨hn, hs0, hsp, hpn⟩ := hg
+  have hx' : l.start = l.pos := hx
   unfold lexIdent
-  nx r l1 hl1 hs1 hf1
+  apply Sat.bind
+  apply next_sat_c (by lx)
+  intro r l1 hl1 hs1 hf1 hc1
+  unfold NextFacts at hf1
+  dsimp only
   split
-  · nx d l2 hl2 hs2 hf2
-    exact lexIdentRest_sat (by lx) (by lx) (by lx) (by lx) (by lx) (by lx) (by eok2) (by inq)
+  · rename_i hr
+    nx d l2 hl2 hs2 hf2
+    split
+    · exact lexIdentRest_sat (by lx) (by lx) (by lx) (by lx) (by lx) (by lx) (by eok2) (by inq)
+    split
+    · exact lexIdentRest_sat (by lx) (by lx) (by lx) (by lx) (by lx) (by lx) (by eok2) (by inq)
+    · have hb := hc1 (by omega) (by omega)
+      have hi2 : l2.input = l.input := by rw [hl2.2.2.2.2.2, hl1.2.2.2.2.2]
+      have hst : l2.start.toNat = l.pos.toNat := by rw [hs2, hs1, hx']
+      exact errorfAt_sat (by lx) (by inq) (name_err (Or.inl (by rw [hi2, hst]; omega)))
   split
   · apply Sat.bind
     apply peek_sat (by lx)
@@ -69,11 +82,19 @@ theorem lexIdent_ok {n : Int} {l : Lexer} (hg : Good n l) :
   split
   · exact lexIdentRest_sat (by lx) (by lx) (by lx) (by lx) (by lx) (by lx) (by eok2) (by inq)
   split
-  · nx dot l2 hl2 hs2 hf2
+  · rename_i hr
+    nx dot l2 hl2 hs2 hf2
     split
     · first | exact errorf_sat (by lx) (by inq) | exact errorfAt_sat (by lx) (by inq) (by first | exact tag_err (by lx) (by lx) (Or.inl rfl) | exact tag_err (by lx) (by lx) (Or.inr rfl) | exact braces_err)
     · nx d l3 hl3 hs3 hf3
-      exact lexIdentRest_sat (by lx) (by lx) (by lx) (by lx) (by lx) (by lx) (by eok2) (by inq)
+      split
+      · exact lexIdentRest_sat (by lx) (by lx) (by lx) (by lx) (by lx) (by lx) (by eok2) (by inq)
+      split
+      · exact lexIdentRest_sat (by lx) (by lx) (by lx) (by lx) (by lx) (by lx) (by eok2) (by inq)
+      · have hb := hc1 (by omega) (by omega)
+        have hi3 : l3.input = l.input := by rw [hl3.2.2.2.2.2, hl2.2.2.2.2.2, hl1.2.2.2.2.2]
+        have hst : l3.start.toNat = l.pos.toNat := by rw [hs3, hs2, hs1, hx']
+        exact errorfAt_sat (by lx) (by inq) (name_err (Or.inr (by rw [hi3, hst]; omega)))
   · exact lexIdentRest_sat (by lx) (by lx) (by lx) (by lx) (by lx) (by lx) (by eok2) (by inq)
 
 /-! ### `∃`-forms of the primitive rules, for the loops defined by `match h : … with` -/
